@@ -167,4 +167,56 @@ theorem Zone.resolve_gap (z : Zone) (hs : z.Sorted) (L e l : Int) (h : z.resolve
       rw [heq] at this; cases this
     · simp at h
 
+/-- in a sorted table a reading without solution lies in the gap of some transition: the search of `findGap`
+succeeds (the last branch of `resolve` is unreachable) -/
+theorem findGap_of_no_sols (cur : Int) (lo : Option Int) (tr : List (Int × Int)) (L : Int)
+    (hlo : GeLo lo (L - cur)) (h : sols cur lo tr L = []) : ∃ b a, findGap cur tr L = some (b, a) := by
+  induction tr generalizing cur lo with
+  | nil =>
+    simp only [sols] at h
+    rw [if_pos hlo] at h
+    cases h
+  | cons p rest ih =>
+    obtain ⟨t, o⟩ := p
+    simp only [sols, List.append_eq_nil_iff] at h
+    obtain ⟨h1, h2⟩ := h
+    have ht : t ≤ L - cur := by
+      by_cases c : L - cur < t
+      · rw [if_pos ⟨hlo, c⟩] at h1; cases h1
+      · omega
+    unfold findGap
+    by_cases c : t + cur ≤ L ∧ L < t + o
+    · rw [if_pos c]; exact ⟨cur, o, rfl⟩
+    · rw [if_neg c]
+      exact ih o (some t) (by show t ≤ L - o; omega) h2
+
+/-- **totality of `resolve`**: for every table and reading the answer is one of the three PEP 495 cases, and the
+fall-through `unique (L − init)` of the definition is never taken (no sortedness needed) -/
+theorem Zone.resolve_total (z : Zone) (L : Int) (h : sols z.init none z.trans L = []) :
+    ∃ e l, z.resolve L = .gap e l := by
+  obtain ⟨b, a, hg⟩ := findGap_of_no_sols z.init none z.trans L (by simp [GeLo]) h
+  exact ⟨L - a, L - b, by simp [Zone.resolve, h, hg]⟩
+
+/-- **unique**, without side condition: the answer `unique u` means that `u` is the one and only instant whose local
+reading is `L` -/
+theorem Zone.resolve_unique' (z : Zone) (hs : z.Sorted) (L u : Int) (h : z.resolve L = .unique u) :
+    z.toLocal u = L ∧ ∀ v, z.toLocal v = L → v = u := by
+  refine z.resolve_unique hs L u h ?_
+  intro hnil
+  obtain ⟨e, l, hg⟩ := z.resolve_total L hnil
+  rw [hg] at h; cases h
+
+/-- **the three cases are exhaustive and exclusive** (sorted tables): a reading has exactly one instant, none, or at
+least two — and `resolve` says which -/
+theorem Zone.resolve_cases (z : Zone) (hs : z.Sorted) (L : Int) :
+    (∃ u, z.resolve L = .unique u ∧ z.toLocal u = L ∧ ∀ v, z.toLocal v = L → v = u) ∨
+    (∃ e l, z.resolve L = .gap e l ∧ ∀ v, z.toLocal v ≠ L) ∨
+    (∃ a b, z.resolve L = .fold a b ∧ a < b ∧ z.toLocal a = L ∧ z.toLocal b = L) := by
+  cases hr : z.resolve L with
+  | unique u => exact Or.inl ⟨u, rfl, z.resolve_unique' hs L u hr⟩
+  | gap e l => exact Or.inr (Or.inl ⟨e, l, rfl, (z.resolve_gap hs L e l hr).1⟩)
+  | fold a b =>
+    obtain ⟨h1, h2, h3, _⟩ := z.resolve_fold hs L a b hr
+    exact Or.inr (Or.inr ⟨a, b, rfl, h3, h1, h2⟩)
+
 end Ea
